@@ -1070,3 +1070,163 @@ Proof.
       * destruct (send_session h1 sid (SError code)) as [h2 o2] eqn:H2. cbn [fst]. rewrite (fst_eq _ _ _ H2).
         apply Hfin. eapply srel_trans; [exact R1|apply srel_send_session].
 Qed.
+
+(* ------------------------------------------------------------------ virtual sessions *)
+Lemma ri_do_internal h c sid s q :
+  RI h -> WF h -> get_sess h sid = Some s -> RI (fst (do_internal h c sid s q)).
+Proof.
+  intros I W Hs. assert (Hfin : forall hh, srel none1 h hh -> RI hh) by (intros hh R; now apply ri_srel0 with h).
+  unfold do_internal.
+  destruct q as [v rn user flags incall|v rn flags incall|v rn|ic].
+  - set (k := (s_backend s, rn)). destruct (room_of h k) as [r|]; [|exact I].
+    set (vs := next_id h). set (h0 := set_nextsid h vs).
+    match goal with |- context [put_sess ?hh vs ?ss] => set (hr := hh); set (vsess := ss) end.
+    set (h1 := put_sess hr vs vsess).
+    set (h2 := set_vtable h1 (pset (h_vtable h1) (sid, v) vs)).
+    set (prev := pget (h_vtable h0) (sid, v)).
+    assert (Hfresh : get_sess h vs = None) by exact (next_id_fresh h).
+    assert (Hget : forall x, get_sess h2 x = if N.eqb x vs then Some vsess else get_sess h x).
+    { intros x. change (get_sess (put_sess h vs vsess) x = if N.eqb x vs then Some vsess else get_sess h x). apply get_put. }
+    assert (Hse2 : h_sessions h2 = aset (h_sessions h) vs vsess) by reflexivity.
+    assert (Hvt2 : h_vtable h2 = pset (h_vtable h) (sid, v) vs) by reflexivity.
+    assert (Hne : sid <> vs) by (intros E; rewrite E in Hs; congruence).
+    assert (I2 : RIg (fun x => prev = Some x) h2).
+    { constructor.
+      - unfold skeys. rewrite Hse2. apply nodup_keys_aset, I.
+      - rewrite Hget. destruct (N.eqb_spec 0 vs) as [E|]; [exfalso; symmetry in E; revert E; apply next_id_nonzero|apply I].
+      - intros x sx c0. rewrite Hget. destruct (N.eqb_spec x vs) as [->|]; intros H Hc.
+        + injection H as <-. discriminate.
+        + exact (ri_conn _ _ I x sx c0 H Hc).
+      - intros x sx c0. rewrite Hget. destruct (N.eqb_spec x vs) as [->|]; intros H Hc.
+        + injection H as <-. discriminate.
+        + exact (ri_novirt _ _ I x sx c0 H Hc).
+      - intros x sx p0 v0. rewrite Hget, Hvt2, pget_pset. destruct (N.eqb_spec x vs) as [->|Hx]; intros H Hk.
+        + injection H as <-. cbn in Hk. injection Hk as <- <-. right. now rewrite pair_eqb_refl.
+        + destruct (ri_vt _ _ I x sx p0 v0 H Hk) as [[]|Hp].
+          destruct (pair_eqb_spec (p0, v0) (sid, v)) as [E|E]; [|now right].
+          left. change (pget (h_vtable h) (sid, v) = Some x). now rewrite <- E.
+      - unfold vkeys. rewrite Hvt2. apply nodup_pkeys_pset, I.
+      - intros x sx k0. rewrite Hget. destruct (N.eqb_spec x vs) as [->|]; intros H Hk.
+        + injection H as <-. cbn in Hk. injection Hk as <-. reflexivity.
+        + exact (ri_room _ _ I x sx k0 H Hk).
+      - intros x sx p0 v0 ps. rewrite !Hget. destruct (N.eqb_spec x vs) as [->|Hx]; intros H Hk.
+        + injection H as <-. cbn in Hk. injection Hk as <- <-. destruct (N.eqb_spec sid vs); [contradiction|].
+          intros Hp. rewrite Hs in Hp. injection Hp as <-. reflexivity.
+        + destruct (N.eqb_spec p0 vs) as [->|]; [|exact (ri_parent _ _ I x sx p0 v0 ps H Hk)].
+          destruct (wf_parent _ _ h W x sx vs v0 H Hk) as [[]|(ps0 & Hps0 & _)]. congruence. }
+    match goal with |- context [rs_set h2 vs ?x] => set (h5 := rs_set h2 vs x) end.
+    assert (R5 : srel none1 h2 h5) by (apply stab_srel, stab_rs_set).
+    fold prev. destruct prev as [pv|] eqn:Hprev.
+    + match goal with |- context [close_one ?hh pv] => set (h9 := hh) end.
+      assert (R9 : srel none1 h2 h9).
+      { unfold h9. speel. destruct (N.eqb _ 0); repeat speel; exact R5. }
+      destruct (close_one h9 pv) as [h10 o10] eqn:H10. cbn [fst]. rewrite (fst_eq _ _ _ H10).
+      apply (ri_drop (fun x => Some pv = Some x \/ none1 x)).
+      * apply (ri_srel _ none1 h2); [|exact I2]. eapply srel_trans; [exact R9|apply srel_close_one].
+      * intros x [E|[]]. injection E as <-. apply close_one_gone.
+    + cbn [fst]. apply (ri_drop (fun x => None = Some x \/ none1 x)).
+      * apply (ri_srel _ none1 h2); [|exact I2]. speel. destruct (N.eqb _ 0); repeat speel; exact R5.
+      * intros x [E|[]]. discriminate.
+  - set (k := (s_backend s, rn)).
+    destruct (room_of h k) as [r|]; [|exact I]. destruct (pget (h_vtable h) (sid, v)) as [vs|]; [|exact I].
+    destruct (get_sess h vs) as [t|] eqn:Ht; [|exact I]. cbn [fst].
+    match goal with |- context [put_sess h vs ?t1] => set (h1 := put_sess h vs t1) end.
+    assert (R1 : srel none1 h h1) by (apply stab_srel; apply stab_put with t; auto).
+    apply Hfin.
+    repeat match goal with |- context [if ?c then _ else _] => destruct c end; repeat speel;
+      try (eapply srel_trans; [|apply stab_srel, stab_set_incall]); repeat speel; exact R1.
+  - set (k := (s_backend s, rn)).
+    destruct (room_of h k) as [r|]; [|exact I]. destruct (pget (h_vtable h) (sid, v)) as [vs|] eqn:Hv; [|exact I].
+    set (h1 := set_vtable h (pdel (h_vtable h) (sid, v))).
+    assert (R1 : srel (fun x => x = vs) h h1).
+    { constructor; auto.
+      - intros _. unfold vkeys. cbn [h1 h_vtable set_vtable]. apply nodup_pkeys_pdel, I.
+      - intros x s' H. exists s'. repeat split; auto.
+      - intros x s' p0 v0 Hx Hk Hp. cbn [h1 h_vtable set_vtable]. rewrite pget_pdel.
+        destruct (pair_eqb_spec (p0, v0) (sid, v)) as [E|E]; [|now right]. left. rewrite E in Hp. congruence. }
+    apply (ri_drop (fun x => none1 x \/ x = vs)).
+    + apply (ri_srel none1 _ h); [|exact I]. eapply srel_trans; [exact R1|apply srel_close_one].
+    + intros x [[]| ->]. apply close_one_gone.
+  - destruct (N.eqb ic (s_incall s)); [exact I|].
+    match goal with |- context [put_sess h sid ?t1] => set (h1 := put_sess h sid t1) end.
+    assert (R1 : srel none1 h h1) by (apply stab_srel; apply stab_put with s; auto).
+    destruct (s_room s) as [k|]; [|now apply Hfin].
+    destruct (N.testbit ic 0); [cbn [fst]; apply Hfin; speel; eapply srel_trans; [exact R1|apply stab_srel, stab_set_incall]|].
+    destruct (leave_call (set_incall h1 k sid false) sid) as [h2 o2] eqn:H2. cbn [fst]. apply Hfin. speel.
+    rewrite (fst_eq _ _ _ H2). eapply srel_trans; [exact R1|]. apply stab_srel.
+    eapply stab_trans; [apply stab_set_incall|apply stab_leave_call].
+Qed.
+
+(* ------------------------------------------------------------------ every step keeps the invariant *)
+Theorem ri_step h o : WF h -> RI h -> RI (fst (step h o)).
+Proof.
+  intros W I.
+  assert (Hrel : forall h', srel none1 h h' -> RI h') by (intros h' R; now apply (ri_srel0 h)).
+  assert (Hws : forall c (f : conn -> N -> session -> hub * list out),
+            (forall cn sid s, aget (h_conns h) c = Some cn -> get_sess h sid = Some s -> RI (fst (f cn sid s))) ->
+            RI (fst (with_session h c f))).
+  { intros c f Hf. unfold with_session. destruct (aget (h_conns h) c) as [cn|] eqn:Hc; [|exact I].
+    destruct (c_sess cn) as [sid|]; [|exact I]. destruct (get_sess h sid) as [s|] eqn:Hs; [|exact I]. eauto. }
+  destruct o as [c addr|c hl|c rn rs rep|c to tag|c to tag|c|c|secs|b signas room q|c q|c to mk stream media|tok ok|c kindn key val|pos|c hl late]; cbn [step].
+  15:{ destruct (aget (h_conns h) c) as [cn|]; [|exact I]. destruct (c_sess cn); [exact I|].
+    destruct hl as [b u rej|b u t|b tok f d|i]; try exact I.
+    - destruct rej; [exact I|]. destruct (h_nb h <=? b); [exact I|].
+      match goal with |- context [close_conn ?hh c] => destruct (close_conn hh c) as [h2 o2] eqn:H2 end. cbn [fst].
+      rewrite (fst_eq _ _ _ H2). apply Hrel.
+      match goal with |- srel _ _ (fst (close_conn ?hh c)) => apply srel_trans with hh; [destruct late; [srel_ns|apply srel_refl]|apply srel_close_conn] end.
+    - apply Hrel. apply srel_close_conn. }
+  - destruct (aget (h_conns h) c) eqn:Hc; [exact I|]. apply Hrel. cbn [fst]. apply srel_set_conn. intros cn0 H0. congruence.
+  - destruct (aget (h_conns h) c) as [cn|] eqn:Hc; [|exact I]. destruct (c_sess cn) eqn:Hcs; [exact I|].
+    match goal with |- RI (fst (do_hello ?hh _ _ _)) => set (h0 := hh) end.
+    assert (R0 : srel none1 h h0) by (apply srel_set_conn; intros cn0 H0; congruence).
+    apply (ri_do_hello h0 c cn hl (mkconn (c_addr cn) None (match hl with HResume _ => c_expect cn | _ => false end))).
+    + now apply Hrel.
+    + now apply wf_set_conn_nosess.
+    + cbn [h0 h_conns set_conns]. apply aget_aset_same.
+    + reflexivity.
+  - apply Hws. intros cn sid s Hc Hs.
+    destruct (do_join h c sid s rn rs rep) as [h1 o1] eqn:H1.
+    assert (I1 : RI h1) by (rewrite (fst_eq _ _ _ H1); now apply ri_do_join).
+    destruct rep as [[pm|] su|code]; try exact I1.
+    destruct (get_sess h1 sid) as [s1|]; [|exact I1].
+    match goal with |- context [if ?cnd then _ else _] => destruct cnd end; [|exact I1].
+    destruct (revoke h1 sid) as [h2 o2] eqn:H2. cbn [fst]. rewrite (fst_eq _ _ _ H2).
+    apply ri_srel0 with h1; [apply stab_srel, stab_revoke|exact I1].
+  - apply Hws. intros. apply Hrel, srel_do_message.
+  - apply Hws. intros cn sid s _ _. destruct (allowed_control s); [apply Hrel, srel_do_message|exact I].
+  - destruct (aget (h_conns h) c) as [cn|]; [|exact I]. destruct (c_sess cn); [apply Hrel, srel_send_conn|exact I].
+  - destruct (aget (h_conns h) c) as [cn|] eqn:Hc; [|exact I]. cbv zeta.
+    pose proof (srel_cut_conn none1 h c cn Hc) as R.
+    destruct (c_sess cn) as [sid|]; [|now apply Hrel].
+    destruct (get_sess (set_conns h (adel (h_conns h) c)) sid) as [s|] eqn:Hs; [|now apply Hrel]. cbn [fst].
+    apply Hrel. speel. speel. exact R.
+  - apply Hrel, srel_do_tick.
+  - destruct (negb (N.eqb b signas) || (h_nb h <=? b)); [exact I|]. apply Hrel, srel_do_api.
+  - apply Hws. intros cn sid s Hc Hs. destruct (is_internal (s_kind s)); [now apply ri_do_internal|exact I].
+  - apply Hws. intros. apply Hrel. now apply srel_do_media.
+  - apply Hrel, srel_do_mcudone.
+  - apply Hws. intros cn sid s Hc Hs. destruct (s_room s) as [k|]; [|exact I].
+    destruct (negb (allowed_transient s)); [exact I|]. destruct (room_of h k) as [r|]; [|exact I]. cbv zeta.
+    destruct (N.eqb kindn 0).
+    + destruct (aget (r_transient r) key) as [v|].
+      * destruct (N.eqb v val); [exact I|]. apply Hrel. apply srel_fold_sessions; [srel_ns|]. intros. apply srel_send_session.
+      * apply Hrel. apply srel_fold_sessions; [srel_ns|]. intros. apply srel_send_session.
+    + destruct (aget (r_transient r) key); [|exact I]. apply Hrel. apply srel_fold_sessions; [srel_ns|]. intros. apply srel_send_session.
+  - apply Hrel, srel_deliver_at.
+Qed.
+
+Theorem ri_qstep h o : WF h -> RI h -> RI (fst (qstep h o)).
+Proof.
+  intros W I. unfold qstep. destruct (step h o) as [h1 o1] eqn:H1. destruct (drain 500 h1) as [h2 o2] eqn:H2. cbn [fst].
+  rewrite (fst_eq _ _ _ H2). apply ri_srel0 with h1; [apply srel_drain|]. rewrite (fst_eq _ _ _ H1). now apply ri_step.
+Qed.
+
+Theorem ri_run ops : forall h, WF h -> RI h -> RI (run h ops).
+Proof. induction ops as [|o r IH]; intros h W I; cbn [run]; [exact I|]. apply IH; [now apply wf_step|now apply ri_step]. Qed.
+Theorem ri_qrun ops : forall h, WF h -> RI h -> RI (qrun h ops).
+Proof. induction ops as [|o r IH]; intros h W I; cbn [qrun]; [exact I|]. apply IH; [now apply wf_qstep|now apply ri_qstep]. Qed.
+
+Theorem ri_reachable limits gated ops : RI (run (init limits gated) ops).
+Proof. apply ri_run; [apply wf_init|apply ri_init]. Qed.
+Theorem ri_reachable_q limits gated ops : RI (qrun (init limits gated) ops).
+Proof. apply ri_qrun; [apply wf_init|apply ri_init]. Qed.
